@@ -16,7 +16,10 @@ sys.path.insert(0, HERE)
 import build as rxbuild  # noqa: E402
 import propcfg            # noqa: E402
 
-NCPU = os.cpu_count() or 4
+try:
+    NCPU = len(os.sched_getaffinity(0)) or 4
+except Exception:
+    NCPU = os.cpu_count() or 4
 OUT = os.environ.get("VERIF_OUT", VERIF)   # mutant / seeded-change runs write their evidence and replays elsewhere
 REPLAYS = os.path.join(OUT, "replays")
 EVIDENCE = os.path.join(OUT, "evidence")
@@ -104,9 +107,27 @@ class Batch:
                "--step", str(nworkers), "--budget-s", "%.1f" % budget, "--samples", str(samples)]
         if self.spec.get("mode"):
             cmd += ["--mode", self.spec["mode"]]
-        if self.spec.get("pin", True):
-            cmd = ["taskset", "-c", str(w % NCPU)] + cmd
         return cmd
+
+    def pin_fn(self, w):
+        """pin a worker to one CPU of this process's affinity set (a hand-off between parked threads is ~10x cheaper
+        on one CPU); silently unpinned if the platform refuses"""
+        if not self.spec.get("pin", True):
+            return None
+        try:
+            cpus = sorted(os.sched_getaffinity(0))
+        except Exception:
+            return None
+        if not cpus:
+            return None
+        cpu = cpus[w % len(cpus)]
+
+        def fn():
+            try:
+                os.sched_setaffinity(0, {cpu})
+            except Exception:
+                pass
+        return fn
 
     def run(self, total=None, nworkers=None, budget=None, collect_samples=True):
         spec = self.spec
@@ -122,7 +143,7 @@ class Batch:
             while start < total and time.time() < deadline:
                 remaining = max(1.0, budget - (time.time() - t0))
                 cmd = self.worker_cmd(w, nworkers, start, total, remaining, 1 if (collect_samples and w == 0 and start == 0) else 0)
-                p = subprocess.Popen(cmd, stdout=subprocess.PIPE, stderr=subprocess.DEVNULL)
+                p = subprocess.Popen(cmd, stdout=subprocess.PIPE, stderr=subprocess.DEVNULL, preexec_fn=self.pin_fn(w))
                 last_idx = None
                 got_bye = False
                 hung = False
